@@ -65,21 +65,32 @@ def d1_d3_gate_chain(ctx):
     if not gate:
         return
     cl = any_closures(ctx, gate)
-    if len(cl) != 1:
+    if len(cl) < 1:
         ctx.chk.missing("D1", "apply_stall_gate: the any_healthy closure", "%d closures" % len(cl))
         return
     gpa = ctx.pa(gate)
-    healthy, ups = closure_rt(sp, ctx.w, cl[0], gate, ("param", 2))
-    ctx.chk.ob("D1", "HEALTHY extracted", healthy not in (b.TRUE, b.FALSE), "HEALTHY(LINK) = %s" % sp.show(healthy),
+    # one carrier test (`any_healthy`) in the code as it stands; several (one per kind of hold) are read the same way: each has
+    # its witness predicate H_i and its `any` atom, and the argument below is made for every one of them
+    tests = []
+    for c_ in cl:
+        h_, ups = closure_rt(sp, ctx.w, c_, gate, ("param", 2))
+        ae = any_call_value(ctx, gate, c_)
+        if ae is None:
+            ctx.chk.missing("D2", "apply_stall_gate: any(healthy closure) call", "")
+            return
+        tests.append((h_, ae, gpa.atom(ae)))
+    healthy = b.FALSE
+    for (h_, ae, af) in tests:
+        healthy = b.OR(healthy, h_)
+    ctx.chk.ob("D1", "HEALTHY extracted", all(h_ not in (b.TRUE, b.FALSE) for (h_, ae, af) in tests), "HEALTHY(LINK) = %s" % sp.show(healthy),
                key="D1:healthy-extracted")
     # --- D2: the value stored to stall_gated on the guard-on path entails any_healthy
-    any_expr = any_call_value(ctx, gate, cl[0])
-    if any_expr is None:
-        ctx.chk.missing("D2", "apply_stall_gate: any(healthy closure) call", "")
-        return
-    any_f = gpa.atom(any_expr)
-    it = any_expr[2][0]
-    full = it[0] == "call" and "slice" in it[1] and it[1].endswith("::iter") and it[2] == (("param", 1),)
+    any_f = gpa.bdd.FALSE
+    full = True
+    for (h_, any_expr, af) in tests:
+        any_f = gpa.bdd.OR(any_f, af)
+        it = any_expr[2][0]
+        full = full and it[0] == "call" and "slice" in it[1] and it[1].endswith("::iter") and it[2] == (("param", 1),)
     ctx.chk.ob("D2", "any_healthy ranges over every link", full, "iterated: %s" % show(it, gate.names),
                key="D2:any-healthy-full-slice")
     stores = field_stores(gate, CONN, "stall_gated")
@@ -109,9 +120,19 @@ def d1_d3_gate_chain(ctx):
         gv_link = sp.import_formula(gpa, rel, mapping_for(link_expr, ("param", 2)))
     # --- D3: the link that justifies gating is itself selectable and not gated
     if gv_link is not None:
-        ok = not sp.sat(b.AND(healthy, gv_link))
+        ok = True
+        det = ""
+        for (h_, ae, af) in tests:
+            # LINK witnesses this carrier test (so the test is true); whatever the other tests say, LINK itself must not be gated
+            g = gv_link
+            mine = sp.import_formula(gpa, af, mapping_for(link_expr, ("param", 2)))
+            for vi in sp.bdd.support(mine):
+                g = sp.bdd.restrict(g, vi, True)
+            if sp.sat(b.AND(h_, g)):
+                ok = False
+                det += "a witness of %s can be gated under %s ; " % (show(ae, gate.names)[:60], sp.counterexample(b.AND(h_, g), b.FALSE))
         ctx.chk.ob("D3", "a healthy link's own gate value is false", ok,
-                   "gate value (LINK) = %s" % sp.show(gv_link, 6), key="D3:healthy-not-gated")
+                   det + "gate value (LINK) = %s" % sp.show(gv_link, 6), key="D3:healthy-not-gated")
     for sel, nm in ((CLASSIC, "classic"), (ENH, "enhanced")):
         r = admitted(ctx, sp, sel, "D3")
         if r is None:
